@@ -34,11 +34,13 @@ MANIFEST = {
             "model of lyjson_number()/lyjson_number_is_zero()/lyjson_count_in_row()/lyjson_exp_number()/"
             "lyjson_exp_number_copy_num_part()/lyjson_get_buffer_for_number() (index style: reads outside the text + NUL, stores "
             "outside the malloc'ed block, failed assert()s and wrapped memset sizes all answer Oob; uint16/int32/uint32/uint64 and "
-            "strtoll modelled with their widths) never answers Oob and ends within its fuel; C05_jsonnum_len_bounded: the block has "
-            "exactly buf_len+1 <= 22 bytes, the bytes stored before the NUL are buf_len or buf_len+1, exact outside layout 2, and the "
-            "value handed on holds no unwritten byte; C05_jsonnum_len_exact_refuted / C05_jsonnum_denotes_refuted(_silent): layout 2 "
-            "(leading `0.`, new decimal point inside the digits) stores one byte more than it counts and produces another number "
-            "(0.5E1 -> `.`, 0.0055E3 -> `55`), inside the allocation. The lexer models (UTF-8 decoder, XML value lexer, JSON string "
+            "strtoll modelled with their widths) never answers Oob and ends within its fuel; C05_jsonnum_len_exact: the block has "
+            "exactly buf_len+1 <= 22 bytes, the bytes stored before the NUL are exactly buf_len and the value handed on holds no unwritten "
+            "byte; C05_jsonnum_denotes: for EVERY accepted text the decimal string handed to the type plugins denotes the number that was "
+            "written (mantissa x 10^exp, exact rationals), all five layouts of lyjson_exp_number and the three outcomes without conversion "
+            "(the model is the code as of /repo 63186d2, which repaired layout 2; the former wrong results 0.5E1 -> `.`, 0.0055E3 -> `55` are "
+            "the regression Example C05_jsonnum_former_witnesses); C05_jsonnum_denotes_bounded: the same by computation on all 37449 short "
+            "strings (checks the specification side independently). The lexer models (UTF-8 decoder, XML value lexer, JSON string "
             "lexer, decimal64 parser) are structural recursions on the input list and cannot read past its end. Tie: extracted models "
             "vs the C functions on generated, exhaustive-short, malformed and truncated inputs under ASan+UBSan (T2), crash-isolated.",
     "note": "Partial by nature: memory safety of the remaining C code, allocator failure paths, leaks and stack depth are runtime "
